@@ -77,6 +77,9 @@ let run_produce () =
       | ["PRODUCE"; store; nm; ver; expl; spare; bufs] ->
           incr ncases; cur := Some (store, name_of_string nm, n_of_dec ver, int_of_string spare, wire_of_string bufs);
           ret := None; impl := []
+      | "PFAIL" :: verdict :: rest ->
+          incr ncases;
+          if verdict <> "ok" then oracle ("produce:store-failure:" ^ verdict) (String.concat " " rest)
       | ["RET"; r] -> ret := Some r
       | ("PKT" | "MET" | "BAD") :: _ -> impl := line :: !impl
       | ["END"] ->
@@ -143,6 +146,9 @@ let run_store () =
           (* Remove while a transaction is open, memory store only (bolt would block): acts on the committed state *)
           let o = SRemove (name_of_string nm, p = "1") in
           let (m', _) = ms_step id_order !ms o in ms := m'; ss := sp_step !ss o
+      | ["PUTRAW"; nm; v] ->
+          (* a foreign value written straight into the bucket (bolt only); the specification holds no packet for it *)
+          bs := { !bs with bs_db = b_put (name_inner (name_of_string nm)) (bytes_of_field v) !bs.bs_db }
       | "STALE" :: rest ->
           oracle "store:bolt:returned-wire-not-stable" (short (String.concat " " rest))
       | ["PUT"; nm; ver; w] -> step (SPut (name_of_string nm, n_of_dec ver, bytes_of_field w))
@@ -235,6 +241,25 @@ let fetch_case_implonly (evs : cev list) (impl_log : (int * cbrec) list) (impl_q
     else if impl_quiet && k = 0 then
       oracle "fetch:impl-quiescent-consumer-never-completed"
         (Printf.sprintf "stream %d: nothing queued, nothing pending, no completion reported (send errors injected)" sid)
+  done
+
+(* for EVERY stepped case, honest or not (misbehaving producer, malformed replies): the callback reports completion at
+   most once, nothing is reported after it, and when the implementation has nothing queued or pending exactly once *)
+let fetch_case_terminal (evs : cev list) (impl_log : (int * cbrec) list) (impl_quiet : bool) =
+  let nstreams = List.length (List.filter (function EvConsume _ -> true | _ -> false) evs) in
+  for sid = 0 to nstreams - 1 do
+    let log = List.map snd (List.filter (fun (s, _) -> s = sid) impl_log) in
+    let k = int_of_nat (completions log) in
+    let rec after_done seen = function
+      | [] -> false
+      | r :: rest -> if seen then true else after_done r.cb_complete rest in
+    if k > 1 then
+      oracle "fetch:impl-completed-more-than-once" (Printf.sprintf "stream %d: the callback reported completion %d times" sid k)
+    else if after_done false log then
+      oracle "fetch:impl-callback-after-completion" (Printf.sprintf "stream %d: a callback was made after the one that reported completion" sid)
+    else if impl_quiet && k = 0 then
+      oracle "fetch:impl-quiescent-consumer-never-completed"
+        (Printf.sprintf "stream %d: nothing queued, nothing pending, yet no completion (content or error) was ever reported" sid)
   done
 
 let fetch_case_oracle (objs : (string * n list list) list) (evs : cev list) (impl_log : (int * cbrec) list) (diverged : bool) (impl_quiet : bool) =
@@ -360,6 +385,7 @@ let run_fetch () =
           oracle ("fetch:hang:" ^ String.concat "_" what)
             (Printf.sprintf "event %d (%s): the client's goroutine never returned from %s" !evno (short !last_ev) (String.concat " " what))
       | ["END"] ->
+          if not !sendfault then fetch_case_terminal (List.rev !evs) (List.rev !impl_log) !impl_quiet;
           if !sendfault then fetch_case_implonly (List.rev !evs) (List.rev !impl_log) !impl_quiet
           else fetch_case_oracle !objs (List.rev !evs) (List.rev !impl_log) !any_div !impl_quiet
       | [""] | [] -> ()
